@@ -2,7 +2,7 @@ import Saito.Model.Atr
 /-
   `driver atr` — line protocol of the C13 model (Saito/Model/Atr.lean).
 
-  flags key=0|1 cap=0|1 hash=0|1 window=0|1                  → "-"   (measured by the harness on the tree under test)
+  flags key=0|1 cap=0|1 hash=0|1 window=0|1 txv=0|1                  → "-"   (measured by the harness on the tree under test)
   blk n=<id> gp=<gp> purge=<id|0> base=<ord> fpb=<n> tre=<n> anr=<n> self=<n> outs=<O;…> utxo=<S;…> nin=<S;…>
       one honestly produced block n > gp+1.  S = owner.blk.ord.idx.amt.typ (the six fields of a utxo key),
       O = S/txsize (outputs of block n−gp−1 in block order), utxo = spendable slips with blk ≤ n−gp−1 before the
@@ -23,6 +23,7 @@ def setFlag (fl : Flags) (kv : String) : Flags :=
   | ["cap", v] => { fl with atrCapUsesParentTreasury := bit v }
   | ["hash", v] => { fl with atrHashCoversFinalTxs := bit v }
   | ["window", v] => { fl with windowChecked := bit v }
+  | ["txv", v] => { fl with txVerdictPropagated := bit v }
   | _ => fl
 
 def parseSlip (s : String) : Option Slip :=
